@@ -217,3 +217,59 @@ def imported(ctx, rule_fn, *args):
         for r in list(ctx.rule_min):
             if sum(1 for o in ctx.obligations if o["rule"] == r) < ctx.rule_min[r] and getattr(ctx, "_own_rules", None) is not None and r not in ctx._own_rules:
                 ctx.rule_min[r] = 0
+
+
+def same_effects(ctx, rule, instance, fi, got, want, what, ordered=False, trials=48):
+    """Obligation: under every guard scenario the code performs the same effects as the reference — the
+    (multi)set of uninterpreted calls / stores that are *active* (all guards of their path true), compared
+    by callee, receiver and argument values under random interpretation.  Insensitive to how paths fork, to
+    helper extraction (callee events carry their callers' guards) and, unless `ordered`, to the order of
+    independent effects."""
+    from .termflow import Valuation, _round
+
+    def sig(val, e):
+        def img(v):
+            try:
+                return repr(val.image(vkey(v)))
+            except (ValueError, OverflowError, ZeroDivisionError):
+                return "<undefined>"
+        return (e.name, tuple(img(a) for a in e.args), tuple(sorted((k, img(v)) for k, v in e.kwargs.items())), img(e.recv) if e.recv is not None else None)
+
+    def text(e):
+        return "%s%s(%s)" % ((show(e.recv)[:60] if e.recv is not None else ""), e.name, ", ".join(_clip(show(a), 80) for a in e.args) + "".join(", %s=%s" % (k, _clip(show(v), 60)) for k, v in e.kwargs.items()))
+
+    witness = None
+    for t in range(trials):
+        verdicts = []
+        for attempt in range(3):
+            val = Valuation(t, salt="s%d" % attempt, base=None if attempt == 0 else Valuation(t, salt="s0"))
+
+            def active(evs):
+                out = []
+                for e in evs:
+                    try:
+                        on = all(val.truth(g) for g in e.full_guards)
+                    except (ValueError, OverflowError, ZeroDivisionError):
+                        on = True
+                    if on:
+                        out.append((sig(val, e), e))
+                return out
+
+            a, b = active(got), active(want)
+            ka, kb = [x[0] for x in a], [x[0] for x in b]
+            if not ordered:
+                ka, kb = sorted(ka, key=repr), sorted(kb, key=repr)
+            ok = ka == kb
+            verdicts.append(ok)
+            if ok:
+                break
+            if witness is None:
+                only_code = [text(e) for s_, e in a if s_ not in kb]
+                only_ref = [text(e) for s_, e in b if s_ not in ka]
+                witness = (only_code, only_ref)
+        if not any(verdicts):
+            only_code, only_ref = witness
+            ctx.fail(rule, instance, fi.where(), "%s: in some guard scenario the code performs %s which the reference does not, and lacks %s" % (what, only_code[:4] or "nothing extra", only_ref[:4] or "nothing"), construct=fi.qualname, stmt=what)
+            return False
+    ctx.ok(rule, instance, fi.where(), "%s: %d effect site(s) agree with the reference in %d guard scenarios" % (what, len(got), trials))
+    return True
